@@ -578,4 +578,45 @@ def parts(tier):
         rule="every (query/copy operation, in-place mutation) sequence on ONE live tier (all tiers of <=2 entries): afterwards the live "
              "tier and a fresh tier with the same fields agree under ~20 observations as receiver and as argument",
         bounds={}, chunk=16))
+
+    # operands whose entries were handed to the constructor as Interval OBJECTS (float times) with blanks around the label: the constructor strips
+    # labels whatever form an entry arrives in, so the four operations give what they give for the same tiers built from plain tuples with clean labels
+    def gen_forms():
+        from praatio.utilities.constants import Interval as _Iv
+        geos = [(((0.0, 2.0),), ((1.0, 3.0),)), (((0.0, 1.0), (2.0, 3.0)), ((0.5, 2.5),)), (((1.0, 2.0),), ((1.0, 2.0),)), (((0.0, 1.0), (1.0, 2.0)), ((0.0, 2.0),))]
+        for gi in range(len(geos)):
+            for pad in (" x ", "x\t", "\nx", "x"):
+                for timekind in ("float", "int"):
+                    for which in ("A", "B", "both"):
+                        yield (gi, pad, timekind, which)
+
+    def chk_forms(case):
+        from praatio.utilities.constants import Interval as _Iv
+        gi, pad, timekind, which = case
+        geos = [(((0.0, 2.0),), ((1.0, 3.0),)), (((0.0, 1.0), (2.0, 3.0)), ((0.5, 2.5),)), (((1.0, 2.0),), ((1.0, 2.0),)), (((0.0, 1.0), (1.0, 2.0)), ((0.0, 2.0),))]
+        ga, gb = geos[gi]
+        conv = (lambda x: int(x) if float(x).is_integer() else float(x)) if timekind == "int" else float     # (whole-numbered times as ints)
+
+        def build(name, g, lab, objects):
+            if objects:
+                return IT(name, [_Iv(conv(a), conv(b), lab) for a, b in g], 0.0, 4.0)
+            return IT(name, [(a, b, lab.strip()) for a, b in g], 0.0, 4.0)
+        viols = []
+        for op in ("union", "intersection", "difference", "mergeLabels"):
+            def run(objects):
+                A = build("A", ga, pad, objects and which in ("A", "both"))
+                B = build("B", gb, pad.replace("x", "y"), objects and which in ("B", "both"))
+                st, r, _ = call(getattr(A, op), B)
+                return (st, canon(r) if st == "ok" else type(r).__name__)
+            got, exp = run(True), run(False)
+            if got != exp:
+                viols.append(Viol("operands-built-from-entry-objects", f"{op} with {which} built from Interval({timekind} times, label {pad!r}) objects on {ga} / {gb}: "
+                                                                       f"{got}; built from tuples with the stripped label: {exp}"))
+                break
+        return 8, "ok", (gi, pad != "x", timekind), viols
+
+    ps.append(InputPart("setops-operands-built-from-entry-objects", gen_forms, chk_forms,
+                        rule="4 geometries x labels with blanks / a tab / a newline around them x Interval objects with float or int times as the entries of A, of B, of "
+                             "both: the four operations give exactly what they give for tiers built from tuples with clean labels", bounds={}))
+
     return ps
